@@ -9,6 +9,8 @@ Programs are JSON-able nested lists over named leaves (see ``LEAVES``):
     ["neg", e]
     ["fn", "exp", e]   ["fn2", "maximum", a, b]     pp.ad.Function wrappers
     ["prev", "t"|"i", k, e]  e.previous_timestep(k) / e.previous_iteration(k)
+    ["tinc", e]  ["dt", e]   pp.ad.time_increment(e) / pp.ad.dt(e, Scalar(0.5))
+    (function names for "fn": exp sin log abs lam, lam = user lambda x*x+1)
 
 The static side (leaf table, symbolic sizes, admissibility) needs no porepy, so
 ``cases()`` stays cheap. ``Ctx`` builds the md-grid, the equation system and the stored
@@ -132,6 +134,11 @@ def typ(e, grid):
         if a[2] or b[2] or a[0] != "vec" or b[0] != "vec" or a[1] != b[1]:
             raise Inadmissible
         return ("vec", a[1], False, a[3] or b[3], a[4] or b[4])
+    if t in ("tinc", "dt"):
+        k, s, plain, ad, sh = typ(e[1], grid)
+        if plain or sh or k not in ("vec", "scalar"):
+            raise Inadmissible
+        return (k, s, False, ad, True)
     if t == "prev":
         k, s, plain, ad, sh = typ(e[3], grid)
         if plain or sh or k not in ("vec", "scalar") or e[3][0] == "leaf" and LEAVES[e[3][1]][0] in ("scalar",):
@@ -201,6 +208,10 @@ def show(e):
         return f"F_{e[1]}({show(e[2])}, {show(e[3])})"
     if t == "prev":
         return f"{show(e[3])}.prev_{e[1]}({e[2]})"
+    if t == "tinc":
+        return f"time_increment({show(e[1])})"
+    if t == "dt":
+        return f"dt({show(e[1])}, 0.5)"
     s = {"add": "+", "sub": "-", "mul": "*", "div": "/", "pow": "**", "matmul": "@"}[e[1]]
     return f"({show(e[2])} {s} {show(e[3])})"
 
@@ -209,8 +220,8 @@ def ops_in(e, acc=None):
     acc = set() if acc is None else acc
     if e[0] == "bin":
         acc.add(e[1])
-    elif e[0] in ("neg", "fn", "fn2", "prev"):
-        acc.add(e[0] + (e[1] if e[0] == "prev" else ""))
+    elif e[0] in ("neg", "fn", "fn2", "prev", "tinc", "dt"):
+        acc.add(e[0] + (e[1] if e[0] in ("prev", "fn") else ""))
     for c in e[1:]:
         if isinstance(c, list):
             ops_in(c, acc)
@@ -245,6 +256,47 @@ def depth1(grid, names=None):
 
 
 INNER_ROOTS = ("add", "mul", "div", "matmul", "fn", "fn2")
+
+# different wrapped functions applied to key-identical arguments
+FUNCTIONS = ("exp", "sin", "log", "abs", "lam")
+FN_ARGS = [
+    ["leaf", "p"],
+    ["leaf", "s"],
+    ["leaf", "p_rev"],
+    ["bin", "mul", ["leaf", "p"], ["leaf", "s"]],
+    ["bin", "add", ["leaf", "p"], ["leaf", "dense"]],
+    ["bin", "matmul", ["leaf", "S_csr"], ["leaf", "p"]],
+    ["bin", "div", ["leaf", "tdd"], ["leaf", "p"]],
+]
+DT_STEP = 0.5
+
+
+def fn_sum_programs(grid, arg):
+    """f(arg) o g(arg') for every ordered pair of different functions (arg' is a second,
+    structurally identical construction of arg), pushed back in time / iteration."""
+    import copy as _copy
+
+    if admissible(arg, grid) is None:
+        return []
+    bases = []
+    for f in FUNCTIONS:
+        for g in FUNCTIONS:
+            if f == g:
+                continue
+            for op in ("add", "sub", "mul"):
+                bases.append(["bin", op, ["fn", f, _copy.deepcopy(arg)], ["fn", g, _copy.deepcopy(arg)]])
+    bases.append(["bin", "add", ["bin", "add", ["fn", "exp", arg], ["fn", "sin", arg]], ["fn", "log", arg]])
+    bases.append(["bin", "mul", ["fn", "lam", ["fn", "exp", arg]], ["fn", "lam", ["fn", "sin", arg]]])
+    progs = []
+    for b in bases:
+        progs.append(b)
+        for k in (1, 2):
+            progs.append(["prev", "t", k, b])
+            progs.append(["prev", "i", k, b])
+        progs.append(["tinc", b])
+        progs.append(["dt", b])
+        progs.append(["bin", "sub", ["leaf", "p"] if typ(b, grid)[1] == _sym(grid, "N") else ["leaf", "pyfloat"], ["prev", "t", 1, b]])
+    return [p for p in progs if admissible(p, grid)]
 
 
 def inner_programs(grid):
@@ -505,7 +557,12 @@ def build(e, ctx):
     if t == "fn":
         from porepy.numerics.ad import functions as F
 
-        return pp.ad.Function(F.exp, "exp")(build(e[2], ctx))
+        funcs = {"exp": F.exp, "sin": F.sin, "log": F.log, "abs": F.abs, "lam": (lambda x: x * x + 1.0)}
+        return pp.ad.Function(funcs[e[1]], e[1])(build(e[2], ctx))
+    if t == "tinc":
+        return pp.ad.time_increment(build(e[1], ctx))
+    if t == "dt":
+        return pp.ad.dt(build(e[1], ctx), pp.ad.Scalar(DT_STEP))
     if t == "fn2":
         from porepy.numerics.ad import functions as F
 
@@ -575,7 +632,15 @@ class Meaning(Oracle):
             v = self.m(e[1], shift)
             return Mat(-v.A) if isinstance(v, Mat) else self._note(-v)
         if t == "fn":
-            return self._note(np.exp(self._vec(self.m(e[2], shift))))
+            z = self._vec(self.m(e[2], shift))
+            if e[1] == "lam":
+                return self._note(z * z + 1.0)
+            return self._note(self._fn(e[1], z))
+        if t in ("tinc", "dt"):
+            if shift is not None:
+                raise Skip("nested shift")
+            d = self.m(e[1], None) - self.m(e[1], ("t", 1))
+            return self._note(d if t == "tinc" else d / DT_STEP)
         if t == "fn2":
             a, b = self._vec(self.m(e[2], shift)), self._vec(self.m(e[3], shift))
             ar, br = a[:, 0].real, b[:, 0].real
